@@ -160,6 +160,79 @@ func main() {
 			progs = append(progs, emit.Src{Name: fmt.Sprintf("G call=%s stmt=%s", c.name, st.name), Text: text})
 		}
 	}
+	// family R: how the RESULTS of a host call are stored: host function (1, 2, 3 results, error / struct results) x
+	// destination form (define, plain assignment, redeclaration, blank, field / element / map / dereference) x what else
+	// refers to the destination variable (nothing, a pointer taken before, a closure reading it, a closure writing it,
+	// a closure created per loop iteration) x locals / package-level variables
+	rcalls := []struct{ name, call, vars, types, zero string }{
+		{"pair", "HPair(K)", "a, s", "int | string", "a, s = 1, \"z\""},
+		{"triple", "HTriple(K)", "a, b, c", "int | int | int", "a, b, c = 1, 2, 3"},
+		{"divmod", "HDivMod(17, K)", "a, b, err", "int | int | error", "a, b = 1, 2"},
+		{"double", "HDouble(K)", "a", "int", "a = 1"},
+		{"struct", "HStruct(K)", "st, ok", "struct{ A, B int } | bool", "ok = false"},
+	}
+	for _, c := range rcalls {
+		vars := strings.Split(c.vars, ", ")
+		types := strings.Split(c.types, " | ")
+		first := vars[0]
+		decl := ""
+		for i, v := range vars {
+			decl += "var " + v + " " + types[i] + "\n"
+		}
+		show := "Show(" + c.vars + ")"
+		call := func(k string) string { return strings.ReplaceAll(c.call, "K", k) }
+		type rform struct{ name, body string }
+		rforms := []rform{
+			{"define", c.vars + " := " + call("2") + "\n" + show},
+			{"assign", decl + c.zero + "\n" + c.vars + " = " + call("2") + "\n" + show},
+			{"assign-ptr-before", decl + c.zero + "\np := &" + first + "\n" + c.vars + " = " + call("2") + "\nShow(*p)\n" + show + "\n*p = *new(" + types[0] + ")\n" + show},
+			{"assign-closure-reads", decl + c.zero + "\nget := func() " + types[0] + " { return " + first + " }\n" + c.vars + " = " + call("2") + "\nShow(get())\n" + show},
+			{"assign-closure-writes", decl + c.zero + "\nreset := func() { " + first + " = *new(" + types[0] + ") }\n" + c.vars + " = " + call("2") + "\n" + show + "\nreset()\n" + show},
+			{"assign-twice", decl + c.zero + "\np := &" + first + "\n" + c.vars + " = " + call("2") + "\n" + c.vars + " = " + call("3") + "\nShow(*p)\n" + show},
+			{"define-then-ptr-then-assign", c.vars + " := " + call("2") + "\np := &" + first + "\n" + c.vars + " = " + call("3") + "\nShow(*p)\n" + show},
+			{"loop-closures", decl + c.zero + "\nvar fs []func() " + types[0] + "\nfor i := 1; i < 3; i++ {\n" + c.vars + " = " + call("i") + "\nfs = append(fs, func() " + types[0] + " { return " + first + " })\n}\nfor _, f := range fs {\nShow(f())\n}\n" + show},
+			{"loop-define-closures", "var fs []func() " + types[0] + "\nfor i := 1; i < 3; i++ {\n" + c.vars + " := " + call("i") + "\nfs = append(fs, func() " + types[0] + " { return " + first + " })\n" + show + "\n}\nfor _, f := range fs {\nShow(f())\n}"},
+			{"in-closure-captured", decl + c.zero + "\nfunc() {\n" + c.vars + " = " + call("2") + "\n}()\n" + show},
+			{"param-dest", "func(" + first + " " + types[0] + ") {\n" + decl[strings.Index(decl, "\n")+1:] + "p := &" + first + "\n" + c.vars + " = " + call("2") + "\nShow(*p)\n" + show + "\n}(*new(" + types[0] + "))"},
+		}
+		if len(vars) > 1 {
+			blank := "_, " + strings.Join(vars[1:], ", ")
+			blankLast := strings.Join(vars[:len(vars)-1], ", ") + ", _"
+			rforms = append(rforms,
+				rform{"assign-blank-first", decl + c.zero + "\n" + blank + " = " + call("2") + "\n" + show},
+				rform{"assign-blank-last", decl + c.zero + "\np := &" + first + "\n" + blankLast + " = " + call("2") + "\nShow(*p)\n" + show},
+				rform{"redeclare", decl[:strings.Index(decl, "\n")+1] + first + " = *new(" + types[0] + ")\np := &" + first + "\n" + c.vars + " := " + call("2") + "\nShow(*p)\n" + show},
+				rform{"assign-deref", decl + c.zero + "\np := &" + first + "\n*p, " + strings.Join(vars[1:], ", ") + " = " + call("2") + "\n" + show},
+				rform{"assign-field-elem", "type H struct{ F " + types[0] + " }\nvar h H\nph := &h\narr := make([]" + types[1] + ", 2)\nsl := arr[:1]\n" + decl + "h.F, arr[0]" + strings.Repeat(", _", len(vars)-2) + " = " + call("2") + "\nShow(ph.F, sl[0])\n_, _ = " + vars[0] + ", " + vars[1] + func() string {
+					x := ""
+					for _, v := range vars[2:] {
+						x += "\n_ = " + v
+					}
+					return x
+				}()},
+				rform{"assign-map", "m := map[string]" + types[0] + "{}\nm2 := m\n" + decl + "m[\"k\"]" + ", " + strings.Join(vars[1:], ", ") + " = " + call("2") + "\nShow(m2[\"k\"], len(m2))\n_ = " + first + "\n" + "Show(" + strings.Join(vars[1:], ", ") + ")"},
+			)
+		}
+		for _, f := range rforms {
+			text := "package main\n\nimport . \"verif/engine/twin/h\"\n\nfunc main() {\n" + f.body + "\n}\n"
+			progs = append(progs, emit.Src{Name: fmt.Sprintf("R call=%s form=%s place=local", c.name, f.name), Text: text})
+		}
+		// package-level destinations
+		gdecl := ""
+		for i, v := range vars {
+			gdecl += "var " + v + " " + types[i] + "\n"
+		}
+		gforms := []rform{
+			{"assign", c.vars + " = " + call("2") + "\n" + show},
+			{"assign-ptr-before", "p := &" + first + "\n" + c.vars + " = " + call("2") + "\nShow(*p)\n" + show + "\n*p = *new(" + types[0] + ")\n" + show},
+			{"assign-closure-reads", "get := func() " + types[0] + " { return " + first + " }\n" + c.vars + " = " + call("2") + "\nShow(get())\n" + show},
+			{"assign-via-func", "store()\n" + show + "\np := &" + first + "\nstore()\nShow(*p)"},
+		}
+		for _, f := range gforms {
+			text := "package main\n\nimport . \"verif/engine/twin/h\"\n\n" + gdecl + "\nfunc store() {\n" + c.vars + " = " + call("5") + "\n}\n\nfunc main() {\n" + f.body + "\n}\n"
+			progs = append(progs, emit.Src{Name: fmt.Sprintf("R call=%s form=%s place=global", c.name, f.name), Text: text})
+		}
+	}
 	res, err := emit.Package(emit.Root()+"/gen/c07cases", "c07cases", progs, 32)
 	if err != nil {
 		fmt.Fprintln(os.Stderr, "HARNESS-ERROR:", err)
@@ -167,6 +240,10 @@ func main() {
 	}
 	kinds := map[string]int{}
 	for _, r := range res.Rejected {
+		if strings.HasPrefix(r, "R ") {
+			fmt.Fprintln(os.Stderr, "HARNESS-ERROR: family R program rejected by go/types:", r)
+			os.Exit(3)
+		}
 		w := strings.Fields(r[strings.Index(r, ": ")+2:])
 		if len(w) > 6 {
 			w = w[len(w)-5:]
